@@ -9,12 +9,15 @@ package scen
 
 import (
 	"fmt"
+	"net/http"
+	"net/http/httptest"
 	"reflect"
 	"strings"
 	"time"
 
 	z "github.com/Oudwins/zog"
 	"github.com/Oudwins/zog/conf"
+	"github.com/Oudwins/zog/zhttp"
 	"github.com/Oudwins/zog/i18n/en"
 	"github.com/Oudwins/zog/zconst"
 	"zogverif/mc"
@@ -149,6 +152,39 @@ func c19Schemas() []func() *c19Schema {
 				{"Parse(nil) default taken", func() (string, any) { var d [][]int; m := sc.Parse(nil, &d); return c19Obs(m, d), d }},
 				{"Parse(nested input)", func() (string, any) { var d [][]int; m := sc.Parse(in, &d); return c19Obs(m, d), d }},
 				{"Validate(nil) default taken", func() (string, any) { var d [][]int; m := sc.Validate(&d); return c19Obs(m, d), d }},
+			}
+			return s
+		},
+		func() *c19Schema {
+			s := &c19Schema{name: "zhttp form / query requests parsed more than once (the request is the input)"}
+			type D struct {
+				Name string   `form:"name" query:"name"`
+				Tags []string `form:"tags[]" query:"tags[]"`
+				Ids  []int    `form:"ids" query:"ids"`
+			}
+			sc := z.Struct(z.Schema{
+				"name": z.String().Default("anon").PostTransform(func(p any, ctx z.Ctx) error { *(p.(*string)) += "!"; return nil }),
+				"tags": z.Slice(z.String().Default("none").Catch("bad").Min(1)).PostTransform(c19MutStrings),
+				"ids":  z.Slice(z.Int().GT(0).Catch(-1)).PostTransform(c19MutInts),
+			})
+			own(&s.objects, "schema object", sc)
+			mkForm := func(body string) *http.Request {
+				r := httptest.NewRequest(http.MethodPost, "/?ids=5&tags%5B%5D=q", strings.NewReader(body))
+				r.Header.Set("Content-Type", "application/x-www-form-urlencoded")
+				r.ParseForm() // as a middleware would; the parsed values are cached on the request
+				return r
+			}
+			r1 := mkForm("name=&tags%5B%5D=&tags%5B%5D=a&tags%5B%5D=b&ids=0&ids=7")
+			r2 := mkForm("tags%5B%5D=a&tags%5B%5D=&tags%5B%5D=&ids=1")
+			rq := httptest.NewRequest(http.MethodGet, "/?name=x&tags%5B%5D=&tags%5B%5D=a&ids=0&ids=3", nil)
+			own(&s.inputs, "request 1 form values", r1.Form)
+			own(&s.inputs, "request 1 body values", r1.PostForm)
+			own(&s.inputs, "request 2 form values", r2.Form)
+			own(&s.inputs, "query request URL", rq.URL.RawQuery)
+			s.events = []c19Event{
+				{"Parse(form request 1: blank entry before others)", func() (string, any) { var d D; m := sc.Parse(zhttp.Request(r1), &d); return c19Obs(m, d), d.Tags }},
+				{"Parse(form request 2: blank entries after others)", func() (string, any) { var d D; m := sc.Parse(zhttp.Request(r2), &d); return c19Obs(m, d), d.Tags }},
+				{"Parse(query request)", func() (string, any) { var d D; m := sc.Parse(zhttp.Request(rq), &d); return c19Obs(m, d), d.Tags }},
 			}
 			return s
 		},
@@ -479,7 +515,7 @@ func init() {
 		ID:    "C19",
 		Rule:  "one execution = one sequence of ≤depth calls (Parse/Validate, absent/present inputs given as maps, []any, typed slices, structs, pointers) under {stock formatter, stock formatter over templates that mention {{value}}} on ONE schema object whose PostTransforms overwrite and append to their destination; after every call: deep snapshot (incl. hidden capacity) of every value handed to a builder (slice/nested defaults, OneOf lists, Contains params) and of every input is unchanged, the schema object itself (every field at any depth, incl. each test's parameter map) is unchanged, the destination shares no backing array with them, and a repeated call observes exactly what its first occurrence observed; every sequence is non-trivial; distinct = distinct (schema, call sequence). plus " + callsRule + ". plus " + layoutRule,
 		Floor: 20,
-		Bound: func(tier string) string { return fmt.Sprintf("all call sequences of length ≤%d over 10 schema families, every field visit order", c19Depth(tier)) },
+		Bound: func(tier string) string { return fmt.Sprintf("all call sequences of length ≤%d over 11 schema families, every field visit order", c19Depth(tier)) },
 		Assumptions: []string{"mutating callbacks only write through the pointer they are given"},
 		Items: func(tier string) []Item {
 			var items []Item
